@@ -112,6 +112,19 @@ class Tr:
                 v, t = self.expr(n.operand)
                 return f'(- {v})', t
             fail(n, 'unary op')
+        if isinstance(n, ast.BoolOp) and isinstance(n.op, ast.And) and len(n.values) >= 2:
+            nar = self.and_narrow(n)
+            if nar is not None:
+                return nar, 'bool'
+        if isinstance(n, ast.ListComp):
+            return self.listcomp(n)
+        if isinstance(n, ast.Subscript):
+            v, t = self.expr(n.value)
+            k, tk = self.expr(n.slice)
+            if (t, '__getitem__', tk) in e.methods:
+                fn, rt = e.methods[(t, '__getitem__', tk)]
+                return f'({fn} {v} {k})', rt
+            fail(n, f'subscript of {t} by {tk}')
         if isinstance(n, ast.BoolOp):
             vals = [self.boolean(v) for v in n.values]
             op = ' && ' if isinstance(n.op, ast.And) else ' || '
@@ -147,6 +160,50 @@ class Tr:
         if isinstance(n, ast.Call):
             return self.call(n)
         fail(n, 'expression')
+
+    def and_narrow(self, n):
+        """`X is not None and REST` with X an Optional attribute/name: REST sees X narrowed
+        (match X with Some v => REST | None => false end); None when the shape does not apply"""
+        first = n.values[0]
+        if not (isinstance(first, ast.Compare) and len(first.ops) == 1 and isinstance(first.ops[0], ast.IsNot)
+                and isinstance(first.comparators[0], ast.Constant) and first.comparators[0].value is None
+                and isinstance(first.left, (ast.Attribute, ast.Name))):
+            return None
+        src, t = self.expr(first.left)
+        if not (isinstance(t, tuple) and t[0] == 'opt'):
+            return None
+        saved = dict(self.narrow)
+        self.fresh += 1
+        v = f'nv{self.fresh}'
+        self.narrow[ast.unparse(first.left)] = (v, t[1])
+        rest = n.values[1:]
+        body = self.boolean(rest[0]) if len(rest) == 1 else self.expr(ast.BoolOp(op=ast.And(), values=rest))[0]
+        self.narrow = saved
+        return f'(match {src} with Some {v} => {body} | None => false end)'
+
+    def listcomp(self, n):
+        """[elt for x in xs if c ...]  ->  map (fun x => elt) (filter (fun x => c) xs)   (one generator)"""
+        if len(n.generators) != 1 or n.generators[0].is_async:
+            fail(n, 'comprehension shape')
+        g = n.generators[0]
+        if not isinstance(g.target, ast.Name):
+            fail(n, 'comprehension target')
+        it, t = self.expr(g.iter)
+        if not (isinstance(t, tuple) and t[0] == 'list'):
+            fail(n, f'comprehension over {t}')
+        saved = dict(self.vars)
+        self.vars[g.target.id] = t[1]
+        x = g.target.id
+        src = it
+        for c in g.ifs:
+            src = f'(filter (fun {x} => {self.boolean(c)}) {src})'
+        if isinstance(n.elt, ast.Name) and n.elt.id == x:
+            out, et = src, t[1]
+        else:
+            ev, et = self.expr(n.elt)
+            out = f'(map (fun {x} => {ev}) {src})'
+        self.vars = saved
+        return out, ('list', et)
 
     def join(self, ta, tb, n):
         if ta == tb:
@@ -234,6 +291,13 @@ class Tr:
                 fail(n, 'generator shape')
             fn, it = self.lam(g.generators[0].target, g.generators[0].iter, lambda: self.boolean(g.elt))
             return f'(loop_{"all" if n.func.id == "all" else "any"} {fn} {it})', 'bool'
+        if isinstance(n.func, ast.Call) and ast.unparse(n.func) == 'type(self)' and len(n.args) == 1 and not n.keywords:
+            a, ta = self.expr(n.args[0])
+            sv, st = self.expr(ast.Name(id='self', ctx=ast.Load()))
+            if ('type(self)', st, ta) in e.funcs:
+                fmt, rt = e.funcs[('type(self)', st, ta)]
+                return fmt.format(sv, a), rt
+            fail(n, f'type(self)(...) for {st} with {ta}')
         args = [self.expr(a) for a in n.args]
         if any(k.arg is not None for k in n.keywords):
             fail(n, 'keyword arguments')      # a bare **kwargs pass-through is ignored
@@ -348,6 +412,9 @@ class Tr:
             return f'(if {cond} then {a} else {b})'
         if isinstance(s, ast.For):
             return self.for_loop(s, rest)
+        if isinstance(s, ast.Assign) and len(s.targets) == 1 and isinstance(s.targets[0], ast.Name) and \
+                isinstance(s.value, ast.List) and not s.value.elts and rest and isinstance(rest[0], ast.For):
+            return self.collect_loop(s.targets[0].id, rest[0], rest[1:])
         if isinstance(s, ast.Assign):
             if len(s.targets) != 1:
                 fail(s, 'multiple targets')
@@ -409,6 +476,54 @@ class Tr:
         else:
             fn, it = self.lam(s.target, s.iter, lambda: 'negb ' + self.boolean(test))
         return f'(if loop_all {fn} {it} then {self.block(rest)} else false)'
+
+    def collect_loop(self, acc, loop, rest):
+        """acc = []
+           for x in xs:
+               if c1: raise E          (optional)
+               if c2: acc.append(x)
+           <rest, which may use acc>
+        ->  match loop_collect (fun x => if c1 then None else Some c2) xs with
+            | None => Err E | Some acc => <rest> end"""
+        if loop.orelse or not isinstance(loop.target, ast.Name):
+            fail(loop, 'collect-loop shape')
+        body = list(loop.body)
+        raise_part = None
+        if len(body) == 2:
+            r = body[0]
+            if not (isinstance(r, ast.If) and not r.orelse and len(r.body) == 1 and isinstance(r.body[0], ast.Raise)):
+                fail(loop, 'collect-loop guard')
+            raise_part = r
+            body = body[1:]
+        if len(body) != 1:
+            fail(loop, 'collect-loop body')
+        a = body[0]
+        if not (isinstance(a, ast.If) and not a.orelse and len(a.body) == 1 and isinstance(a.body[0], ast.Expr)
+                and ast.unparse(a.body[0].value) == f'{acc}.append({loop.target.id})'):
+            fail(loop, 'collect-loop append')
+        it, t = self.expr(loop.iter)
+        if not (isinstance(t, tuple) and t[0] == 'list'):
+            fail(loop, f'iteration over {t}')
+        saved = dict(self.vars)
+        self.vars[loop.target.id] = t[1]
+        keep = self.boolean(a.test)
+        if raise_part is not None:
+            if not self.raises:
+                fail(loop, 'raise in a function declared not to raise')
+            exc = raise_part.body[0].exc
+            exc = exc.func.id if isinstance(exc, ast.Call) else getattr(exc, 'id', None)
+            if exc not in ('ValueError', 'KeyError', 'TypeError', 'IndexError'):
+                fail(loop, 'exception kind')
+            guard = self.boolean(raise_part.test)
+            fn = f'(fun {loop.target.id} => if {guard} then None else Some {keep})'
+        else:
+            exc = 'ValueError'
+            fn = f'(fun {loop.target.id} => Some {keep})'
+        self.vars = saved
+        self.vars[acc] = t
+        out = f'(match loop_collect {fn} {it} with None => Err {exc} | Some {acc} => {self.block(rest)} end)'
+        self.vars = saved
+        return out
 
     def opt_operands(self, test):
         """the test is a conjunction of Optional-typed expressions used for their truthiness
